@@ -7,6 +7,16 @@ RULES = {
     "R-LINK": ("rules.accounting", "r_link"),
     "R-WINDOW": ("rules.accounting", "r_window"),
     "R-BULKDROP-GUARD": ("rules.accounting", "r_bulkdrop_guard"),
+    "R-ERASE-BEFORE": ("rules.ownership", "r_erase_before"),
+    "R-OWNING-ITER": ("rules.ownership", "r_owning_iter"),
+    "R-DUP-FORGET": ("rules.ownership", "r_dup_forget"),
+    "R-DRAIN-PROTOCOL": ("rules.ownership", "r_drain_protocol"),
+    "R-LINEAR-INNER": ("rules.ownership", "r_linear_inner"),
+    "R-ALLOC-WHO": ("rules.ownership", "r_alloc_who"),
+    "R-SINGLETON-GUARD": ("rules.ownership", "r_singleton_guard"),
+    "R-FIELD-IMMUT": ("rules.ownership", "r_field_immut"),
+    "R-LAYOUT-SOURCE": ("rules.ownership", "r_layout_source"),
+    "R-NOALLOC-REACH": ("rules.ownership", "r_noalloc_reach"),
     "R-INFALLIBLE": ("rules.fallible", "r_infallible"),
     "R-FALLIBLE-THREAD": ("rules.fallible", "r_fallible_thread"),
     "R-FALLIBLE-NOPANIC": ("rules.fallible", "r_fallible_nopanic"),
@@ -50,6 +60,17 @@ PROPS["C16"] = {
                "every borrowed region in a public return type is tied to an argument (R-SIG-REGION) and mutable/owning access is only derived from an exclusive borrow or a by-value mutable handle of the same lifetime (R-MUT-FROM-MUT); "
                "no raw handle type escapes through a public signature (R-RAW-ESCAPE)",
     "not_decided": "nothing of the property's three clauses is left to runtime; outside the claim: the access-class table itself (reviewed by hand), configurations that cannot be type-checked here",
+}
+
+PROPS["C03"] = {
+    "rules": ["R-ALLOC-WHO", "R-LAYOUT-SOURCE", "R-FIELD-IMMUT", "R-SINGLETON-GUARD", "R-NOALLOC-REACH", "R-LINEAR-INNER",
+              "R-ERASE-BEFORE", "R-OWNING-ITER", "R-DUP-FORGET", "R-DRAIN-PROTOCOL", "R-BULKDROP-GUARD", "R-WINDOW"],
+    "level": "other",
+    "decided": "allocation pairing: who may call the allocator, every Layout comes from calculate_layout_for(buckets)/into_allocation and bucket_mask/ctrl are never reassigned, so a block is returned with the layout it was requested with (R-ALLOC-WHO, R-LAYOUT-SOURCE, R-FIELD-IMMUT); "
+               "the static empty singleton is never freed (R-SINGLETON-GUARD); constructors of empty collections cannot reach the allocator and clear/drain/retain/extract_if cannot reach deallocate (R-NOALLOC-REACH); "
+               "no local RawTableInner (which has no Drop) is dropped on the floor (R-LINEAR-INNER); an element is moved out or destroyed only after its slot was unregistered (R-ERASE-BEFORE); "
+               "owning iterators destroy their remainder through the same cursor and then release storage (R-OWNING-ITER); bit-wise duplicates forget the original (R-DUP-FORGET); the drain protocol (R-DRAIN-PROTOCOL); guarded bulk destruction (R-BULKDROP-GUARD)",
+    "not_decided": "that the group walk in drop_elements reaches every FULL byte; per-element drop counts for particular histories",
 }
 
 NOT_APPLICABLE = {
